@@ -415,7 +415,12 @@ pub fn feature_mix_program(t: &mut Tape) -> String {
     let nfn = t.urange(0, 2);
     let mut arity: Vec<usize> = Vec::new();
     for k in 0..nfn {
-        match t.draw(5) {
+        match t.draw(6) {
+            5 => {
+                // a function that guards its argument: a call with a large argument is a failed constraint
+                s.push_str(&format!("#fn f{}(x) => {{ assert(x < 4), x }}\n", k));
+                arity.push(1);
+            }
             0 => {
                 s.push_str(&format!("#fn f{}(x) => x + 1\n", k));
                 arity.push(1);
@@ -575,7 +580,8 @@ pub fn feature_mix_program(t: &mut Tape) -> String {
             13 => s.push_str(&format!("#align {}\n", *t.pick(&[8, 16, 32]))),
             14 => s.push_str(&format!("#res {}\n", t.draw(4))),
             15 => {
-                let a = if faulty && t.chance(1, 3) { "1 == 2" } else { *t.pick(&["1 == 1", "$ >= 0", "cfgz >= 1", "g1 < 0x8000"]) };
+                let guarded = format!("{} >= 0", call(t, &arity, faulty));
+                let a: &str = if faulty && t.chance(1, 3) { *t.pick(&["1 == 2", "assert(1 == 2)", "{ assert(2 < 1), true }"]) } else if t.chance(1, 3) { guarded.as_str() } else { *t.pick(&["1 == 1", "$ >= 0", "cfgz >= 1", "g1 < 0x8000"]) };
                 if a.contains("cfgz") {
                     used_cfg = true;
                 }
